@@ -198,6 +198,13 @@ def type_test(v, names):
         tp = getattr(v, "type_pred", None)
         if tp is not None:
             return tp(short)
+        from .symexec import CFG_MODE
+        if CFG_MODE[0]:
+            cache = v.__dict__.setdefault("_isinst", {})
+            key = tuple(sorted(short))
+            if key not in cache:
+                cache[key] = fresh_bool(f"{v.tag}.isinstance_{'_'.join(short)}")
+            return cache[key]
         raise Unsupported(f"isinstance on untyped opaque {v!r}")
     if isinstance(v, bool):
         return "bool" in short or "int" in short
@@ -831,3 +838,17 @@ def _stack(ex, path, args, kwargs, node, fn):
     a = Arr([n, len(items)], at, "real", "stacked")
     a.columns = items
     return a
+
+
+@model("<PyList>.index")
+def _list_index(ex, path, args, kwargs, node, fn):
+    lst, x = args[0], args[1]
+    for i, it in enumerate(lst.items):
+        if val_eq(it, x) is True:
+            return i
+    raise Unsupported("list.index of an element that is not syntactically present")
+
+
+@model("<PyList>.copy", "<PyList>.keys")
+def _list_copy(ex, path, args, kwargs, node, fn):
+    return args[0]
